@@ -218,7 +218,8 @@ fn blackbox(kind: &str, k: usize, out: &mut Out) {
         if extra != 0 {
             out.viol("bb-two-answers", &format!("{kind} {k}: {extra} bytes follow a complete response"));
         }
-        if class == "abort" && status == 0 && kind != "slow_client" {
+        // (the close that follows an early response is the documented outcome, not a missing answer)
+        if class == "abort" && status == 0 && kind != "slow_client" && kind != "early_response" {
             out.viol("bb-no-answer", &format!("{kind} {k}: no answer: the client got no byte, only a close"));
         }
         seen.push((class, body as usize));
